@@ -72,7 +72,8 @@ def compare_db(db1, db2, ignore=None):
         f2 = db2.frame_by_name(f1.name)
         f2id = db2.frame_by_id(f1.arbitration_id)
         if f2 is None:
-            if f2id is None:
+            # pair by identifier only with a frame that has no partner by name itself
+            if f2id is None or db1.frame_by_name(f2id.name) is not None:
                 result.add_child(CompareResult("deleted", "FRAME", f1))
             else:
                 result.add_child(compare_frame(f1, f2id, ignore))
@@ -81,7 +82,7 @@ def compare_db(db1, db2, ignore=None):
     for f2 in db2.frames:
         f1 = db1.frame_by_name(f2.name)
         f1id = db1.frame_by_id(f2.arbitration_id)
-        if f1id is None and f1 is None:
+        if f1 is None and (f1id is None or db2.frame_by_name(f1id.name) is not None):
             result.add_child(CompareResult("added", "FRAME", f2))
 
     if "ATTRIBUTE" in ignore and ignore["ATTRIBUTE"] == "*":
